@@ -154,11 +154,22 @@ def dezip_view(mod, func):
         gens = n.generators if isinstance(n, (ast.ListComp, ast.GeneratorExp, ast.SetComp, ast.DictComp)) else ([n] if isinstance(n, ast.For) else [])
         for g in gens:
             it = g.iter
+            own_index = None
+            # for t, (a, b) in enumerate(zip(A, B)): the counter is the index
+            if isinstance(it, ast.Call) and isinstance(it.func, ast.Name) and it.func.id == 'enumerate' and len(it.args) == 1 and not it.keywords and isinstance(g.target, ast.Tuple) \
+                    and len(g.target.elts) == 2 and isinstance(g.target.elts[0], ast.Name) and isinstance(g.target.elts[1], ast.Tuple) and isinstance(it.args[0], ast.Call) \
+                    and isinstance(it.args[0].func, ast.Name) and it.args[0].func.id == 'zip':
+                z_ = it.args[0]
+                tg_ = g.target.elts[1]
+                if len(tg_.elts) == len(z_.args) >= 2 and all(isinstance(t, ast.Name) for t in tg_.elts) and all(isinstance(a, (ast.Name, ast.Attribute)) for a in z_.args):
+                    own_index = g.target.elts[0].id
+                    g.target = tg_
+                    it = z_
             if not (isinstance(it, ast.Call) and isinstance(it.func, ast.Name) and it.func.id == 'zip' and isinstance(g.target, ast.Tuple) and len(g.target.elts) == len(it.args) >= 2
                     and all(isinstance(t, ast.Name) for t in g.target.elts) and all(isinstance(a, (ast.Name, ast.Attribute)) for a in it.args)):
                 continue
             k += 1
-            iv = 'rep' if k == 1 else 'rep%d' % k
+            iv = own_index or ('rep' if k == 1 else 'rep%d' % k)
             sub = {t.id: '%s[%s]' % (ast.unparse(a), iv) for t, a in zip(g.target.elts, it.args)}
 
             class R(ast.NodeTransformer):
